@@ -70,8 +70,8 @@ TEXTS = ["abc", "a,b", 'q"t', "k: v", "#h", "sp ace", " lead", "trail "]
 TEXT_LABEL = ["abc", "comma", "quote", "colon", "hash", "space", "leading-blank", "trailing-blank"]
 TEXTS_X = ["x;y", "it's", "50%", "a|b"]
 KEYS = ["info", "a_key", "k234567890123456789012345"]        # the last one has 25 characters
-CVALS = ["plain", "with: colon", "x:y:z", "#lead", "a , b", "9", "410730 : Cotter at : Gingera"]
-CVAL_LABEL = ["plain", "colon", "colons", "hash", "comma", "digit", "spaced-colons"]
+CVALS = ["plain", "with: colon", "x:y:z", "#lead", "a , b", "9", "410730 : Cotter at : Gingera", "lat: -35.31   lon: 149.12", "a\tb"]
+CVAL_LABEL = ["plain", "colon", "colons", "hash", "comma", "digit", "spaced-colons", "repeated-blanks", "tab"]
 CVALS_X = ["10:00:00 on 2020-01-02", "v=1 (approx. 50%)", "path/to/x.csv", "a - b -- c"]
 FORMATS = ["%0.5f", "%0.2f", "%.10e"]
 FLOATS = [1.5, 0.0, -2.25, 0.123456789, 12345.678915, -4e-6, 0.125, float("nan")]
